@@ -198,6 +198,8 @@ class Opts:
         self.intrinsic_shadow = False
         self.excl = set()               # exclusion flags
         self.f77 = False                # fparser1 subset (C19)
+        self.unit_pool = None           # restrict program-unit / subprogram names to this list (name coincidences
+        #                                 between the sources of one history, C09)
         for k, v in kw.items():
             assert hasattr(self, k), k
             setattr(self, k, v)
@@ -230,6 +232,8 @@ class Gen:
         return out
 
     def fresh_unit_name(self, pool=UNIT_NAMES):
+        if pool is UNIT_NAMES and self.o.unit_pool:
+            pool = self.o.unit_pool
         for _ in range(30):
             nm = self.r.pick(pool)
             if nm not in self.used_unit_names:
